@@ -27,22 +27,23 @@ PROGS5 = '{"id", "failB", "nocompile", "collect", "haltB"}'
 MODES4 = '{"each", "slurp", "raw", "rawslurp"}'
 
 
-def mc_cfg(spec, n, kinds=KINDS5, progs=PROGS5, modes=MODES4, invs=(), props=(), post=None):
-    t = 'SPECIFICATION %s\nCONSTANTS MaxInputs = %d\n Kinds = %s\n ProgSet = %s\n Modes = %s\n' % (spec, n, kinds, progs, modes)
+def mc_cfg(spec, n, neach=None, kinds=KINDS5, progs=PROGS5, modes=MODES4, invs=(), props=(), post=None):
+    t = ('SPECIFICATION %s\nCONSTANTS MaxInputs = %d\n MaxInputsEach = %d\n Kinds = %s\n ProgSet = %s\n Modes = %s\n'
+         % (spec, n, neach or n, kinds, progs, modes))
     t += ''.join('INVARIANT %s\n' % i for i in invs) + ''.join('PROPERTY %s\n' % p for p in props)
     if post:
         t += 'POSTCONDITION %s\n' % post
     return t
 
 
-def laws_cfg(n, alphabet, reduced, invs):
-    return ('SPECIFICATION Spec\nCONSTANTS MaxLen = %d\n Alphabet = "%s"\n Reduced = %s\n' % (n, alphabet, 'TRUE' if reduced else 'FALSE')
+def laws_cfg(nred, nfull, alphabet, invs):
+    return ('SPECIFICATION Spec\nCONSTANTS MaxLen = %d\n MaxLenFull = %d\n Alphabet = "%s"\n' % (nred, nfull, alphabet)
             + ''.join('INVARIANT %s\n' % i for i in invs) + 'CHECK_DEADLOCK FALSE\n')
 
 
-def gen_cfg(what, maxlen, reduced, maxinputs):
-    return ('SPECIFICATION GSpec\nCONSTANTS MaxLen = %d\n Alphabet = "raw"\n Reduced = %s\n What = "%s"\n MaxInputs = %d\n'
-            'CONSTRAINT Emit\nCHECK_DEADLOCK FALSE\n' % (maxlen, 'TRUE' if reduced else 'FALSE', what, maxinputs))
+def gen_cfg(what, nred, nfull, maxinputs):
+    return ('SPECIFICATION GSpec\nCONSTANTS MaxLen = %d\n MaxLenFull = %d\n Alphabet = "raw"\n What = "%s"\n MaxInputs = %d\n'
+            'CONSTRAINT Emit\nCHECK_DEADLOCK FALSE\n' % (nred, nfull, what, maxinputs))
 
 
 def model_arm(ctx):
@@ -54,10 +55,8 @@ def model_arm(ctx):
         ctx.tlc_expect_ok(r, 'input loop <= 4 inputs, all modes')
         ctx.cov['loop_mc'] = 'all lists of <= 4 inputs over {A,B,U,M,D} x 5 programs x {each,slurp,raw,rawslurp} x {-n, no -n}'
     else:
-        r = ctx.tlc('CLIMC', 'mc_loop.cfg', cfg_text=mc_cfg('Spec', 3, invs=invs, props=['MemoryMonotone']), timeout=600)
-        ctx.tlc_expect_ok(r, 'input loop <= 3 inputs, all modes')
-        r = ctx.tlc('CLIMC', 'mc_loop4.cfg', cfg_text=mc_cfg('Spec', 4, modes='{"each"}', invs=invs), timeout=600)
-        ctx.tlc_expect_ok(r, 'input loop <= 4 inputs, per-input mode')
+        r = ctx.tlc('CLIMC', 'mc_loop.cfg', cfg_text=mc_cfg('Spec', 3, 4, invs=invs, props=['MemoryMonotone']), timeout=600)
+        ctx.tlc_expect_ok(r, 'input loop <= 3 inputs all modes, <= 4 inputs per-input mode')
         ctx.cov['loop_mc'] = ('all lists of <= 3 inputs over {A,B,U,M,D} x 5 programs x 4 stream modes x {-n, no -n}; '
                               'all lists of <= 4 inputs x 5 programs x {-n, no -n} in the per-input mode')
     # vacuity: every action fires (TLC -coverage hangs on this module, so TLC registers are used; single worker)
@@ -73,19 +72,15 @@ def model_arm(ctx):
             raise Inconclusive('loop model never reaches exit 2 with decode and runtime errors pending')
 
     # (a) laws on the transcription, and transcription implements the documented grammar
-    if thorough:
-        runs = [(3, 'raw', False, ['LawsHold']), (4, 'raw', True, ['LawsHold']),
-                (3, 'tagged', False, ['TagsOK', 'RefinesOrKnownSpelling']), (4, 'tagged', True, ['TagsOK', 'RefinesOrKnownSpelling'])]
-    else:
-        runs = [(3, 'raw', True, ['LawsHold']), (2, 'raw', False, ['LawsHold']),
-                (3, 'tagged', True, ['TagsOK', 'RefinesOrKnownSpelling']), (2, 'tagged', False, ['TagsOK', 'RefinesOrKnownSpelling'])]
-    for n, alpha, red, iv in runs:
-        r = ctx.tlc('CLILaws', 'laws_%s_%d%s.cfg' % (alpha, n, 'r' if red else ''), cfg_text=laws_cfg(n, alpha, red, iv), timeout=1500)
-        ctx.tlc_expect_ok(r, 'argument laws %s n=%d' % (alpha, n))
-    ctx.cov['laws_mc'] = ['%s alphabet (%s), vectors <= %d' % (a, 'reduced' if red else 'full', n) for n, a, red, _ in runs]
+    nred, nfull = (4, 3) if thorough else (3, 2)
+    for alpha, iv in (('raw', ['LawsHold']), ('tagged', ['TagsOK', 'RefinesOrKnownSpelling'])):
+        r = ctx.tlc('CLILaws', 'laws_%s.cfg' % alpha, cfg_text=laws_cfg(nred, nfull, alpha, iv), timeout=1500)
+        ctx.tlc_expect_ok(r, 'argument laws, %s alphabet' % alpha)
+    ctx.cov['laws_mc'] = ('raw alphabet (37 tokens incl. undocumented shapes): 6 laws; tagged alphabet (42 tokens): transcription implements the '
+                          'documented grammar; all vectors <= %d over the full and <= %d over the reduced (22 / 19 token) alphabets' % (nfull, nred))
     # anti-vacuity: the known hole (jq's --rawfile) is really the only reason Refines is weakened, and argerr/ok intents are reached
-    for probe in (['NeverJqSpellingHole', 'NeverArgErr', 'NeverOkIntent'] if thorough else ['NeverJqSpellingHole']):
-        r = ctx.tlc('CLILaws', 'probe_%s.cfg' % probe, cfg_text=laws_cfg(2, 'tagged', False, [probe]), count=False, timeout=300)
+    for probe in (['NeverJqSpellingHole', 'NeverArgErr', 'NeverOkIntent'] if thorough else []):
+        r = ctx.tlc('CLILaws', 'probe_%s.cfg' % probe, cfg_text=laws_cfg(2, 2, 'tagged', [probe]), count=False, timeout=300)
         if r.violated != probe:
             if probe == 'NeverJqSpellingHole':
                 ctx.cov['as_built_rawfile_hole'] = False    # transcription accepts --rawfile (code repaired and spec updated)
@@ -98,11 +93,10 @@ def model_arm(ctx):
 def parse_arm(ctx, binp, extra_argvs):
     """GEN(parse): every raw vector inside the constants through the real _args_parse; the transcription is a drift detector."""
     thorough = ctx.tier == 'thorough'
-    preds = []
-    for n, red in ([(3, False), (4, True)] if thorough else [(3, True), (2, False)]):
-        g = ctx.tlc('CLIGen', 'gen_parse_%d%s.cfg' % (n, 'r' if red else ''), cfg_text=gen_cfg('parse', n, red, 0), timeout=1500)
-        ctx.tlc_expect_ok(g, 'CLIGen parse')
-        preds += g.printed
+    nred, nfull = (4, 3) if thorough else (3, 2)
+    g = ctx.tlc('CLIGen', 'gen_parse.cfg', cfg_text=gen_cfg('parse', nred, nfull, 0), timeout=1500)
+    ctx.tlc_expect_ok(g, 'CLIGen parse')
+    preds = g.printed
     if len(preds) < 1000:
         raise Inconclusive('GEN(parse) produced too few vectors')
     seen, uniq = set(), []
@@ -162,7 +156,7 @@ def run(ctx):
     binp = ctx.go_build('c17')
 
     # GEN(e2e): tagged command lines with predictions
-    g = ctx.tlc('CLIGen', 'gen_e2e.cfg', cfg_text=gen_cfg('e2e', 1, True, 4 if thorough else 3), timeout=1500)
+    g = ctx.tlc('CLIGen', 'gen_e2e.cfg', cfg_text=gen_cfg('e2e', 1, 1, 4 if thorough else 3), timeout=1500)
     ctx.tlc_expect_ok(g, 'CLIGen e2e')
     cases = g.printed
     if len(cases) < 1500:
@@ -171,14 +165,14 @@ def run(ctx):
     if not thorough:
         # quick: loop family exhaustive for <= 2 inputs, seeded sample of the 3-input lists and of the law groups
         groups = sorted({c['group'] for c in cases if c['fam'].startswith('law:')})
-        keepg = set(ctx.rng.sample(groups, min(len(groups), 26))) | {'negnum', 'dashfile', 'dashfile2', 'dashprog'}
+        keepg = set(ctx.rng.sample(groups, min(len(groups), 16))) | {'negnum', 'dashfile', 'dashfile2', 'dashprog'}
         kept = []
         for c in cases:
-            if c['fam'] == 'loop' and len(c['fidx']) >= 3 and ctx.rng.random() > 0.12:
+            if c['fam'] == 'loop' and len(c['fidx']) >= 3 and ctx.rng.random() > 0.05:
                 continue
             if c['fam'].startswith('law:') and c['group'] not in keepg:
                 continue
-            if c['fam'] in ('bind', 'argerr') and ctx.rng.random() > 0.5:
+            if c['fam'] in ('bind', 'argerr', 'format') and ctx.rng.random() > 0.5:
                 continue
             kept.append(c)
         ctx.cov['gen_e2e_emitted'] = len(cases)
@@ -186,14 +180,14 @@ def run(ctx):
     for i, c in enumerate(cases):
         c['id'] = i
     cpath = os.path.join(ctx.build, 'e2e_cases.ndjson')
-    vlib.write_ndjson(cpath, [{k: c[k] for k in ('id', 'fam', 'group', 'toks', 'fidx', 'stdin')} for c in cases])
+    vlib.write_ndjson(cpath, [dict(solo=c['indep'], **{k: c[k] for k in ('id', 'fam', 'group', 'toks', 'fidx', 'stdin')}) for c in cases])
     epath = os.path.join(ctx.build, 'e2e_events.ndjson')
     ctx.run([binp, 'replay', cpath, epath], check=True, timeout=1500)
     gen_events = vlib.read_ndjson(epath)
     if len(gen_events) != len(cases):
         raise Inconclusive('replay lost cases')
     # TV driver: seeded random longer/mixed command lines
-    nrand = 2500 if thorough else 350
+    nrand = 2500 if thorough else 250
     rpath = os.path.join(ctx.build, 'rand_events.ndjson')
     ctx.run([binp, 'rand', str(nrand), rpath], check=True, timeout=1500)
     rand_events = vlib.read_ndjson(rpath)
@@ -230,6 +224,9 @@ def run(ctx):
     ctx.cov['events_by_family'] = dict(collections.Counter(e['fam'].split(':')[0] for e in events))
     ctx.cov['exit_codes_seen'] = dict(collections.Counter(str(e['exit']) for e in events))
     ctx.cov['solo_runs_compared'] = sum(len(e['solo']) for e in events)
+    ctx.cov['events_with_independence_checked'] = sum(1 for e in events if e['solo'])
+    if any(c['indep'] and len(e['solo']) != len(e['fidx']) for c, e in zip(cases, gen_events)):
+        raise Inconclusive('solo runs missing for a case where independence applies')
     rejected = {}
     for line, sig in rej:
         rejected[line - 1] = sig
